@@ -7,7 +7,7 @@ globals().update(
         pid="C09",
         props=["JaqalProofs/Props/C09.lean", "JaqalProofs/Props/C09Exec.lean", "JaqalProofs/Props/C08Outputs.lean"],
         targets=["JaqalProofs.Props.C09", "JaqalProofs.Props.C09Exec", "JaqalProofs.Props.C08Outputs"],
-        diffs=[("harness.agents.pass1_diff", 700, 6000), ("harness.agents.c09_scale", 100, 600), ("harness.agents.c09_combo", 600, 8000), ("harness.agents.outlist_diff", 1000, 8000, {"subcircuit_spelling_agrees", "one_readout_per_visit_in_order"})],
+        diffs=[("harness.agents.pass1_diff", 700, 6000), ("harness.agents.c09_scale", 100, 600), ("harness.agents.c09_combo", 600, 8000), ("harness.agents.outlist_diff", 1000, 8000, {"subcircuit_spelling_agrees", "one_readout_per_visit_in_order"}), ("harness.agents.c09_traps", 400, 5000)],
         extra_run=extra_run,
         trusted=[
             STD_TRUST,
